@@ -179,6 +179,9 @@ func (c *shardedMap) ExpireAll(ctx context.Context) {
 		b.Unlock()
 	}
 
+	// Entries have expiration now, janitor of UnlimitedTTL cache must not skip them.
+	atomic.AddInt64(&c.t.expirationsSet, 1)
+
 	c.t.NotifyExpiredAll(ctx, start, cnt)
 }
 
@@ -297,6 +300,10 @@ func (c *ShardedMap) Restore(r io.Reader) (int, error) {
 		b.Lock()
 		b.data[h] = &e
 		b.Unlock()
+
+		if e.E != 0 {
+			atomic.AddInt64(&c.t.expirationsSet, 1)
+		}
 
 		n++
 	}
